@@ -221,7 +221,8 @@ pub fn run_check(property: &str, tier: &str) -> i32 {
 
     // ---- C11 only: the frame must also hold when a file-system call of the deleting request fails
     let mut frame_faults: Option<super::faults::FaultSummary> = None;
-    if property == "C11" {
+    // (pointless, and possibly very slow, once the fault-free pass already shows the frame broken)
+    if property == "C11" && (reported == 0 || std::env::var_os("VERIF_FORCE_FRAME").is_some()) {
         let (fs, reps) = super::faults::run_frame_faults(tier);
         for (min, path) in &reps {
             if let Some(f) = known.matches(property, &min.signature) {
